@@ -5,6 +5,7 @@ import (
 	"net"
 	"strings"
 	"testing"
+	"time"
 
 	"verif/sim/pktcodec"
 	"verif/sim/simrt"
@@ -330,6 +331,10 @@ func runC17(t *testing.T, c simrt.Chooser, o Opts) *Out {
 	case 2:
 		w.SockOpenErr = "socket: operation not permitted"
 		sc.Fault = "sock-open-fail"
+	}
+	if p.pct("slowhost", 15) {
+		// slow enumeration of the host configuration: the scan starts later, on the same interface
+		w.HostLatency = p.dur("hostlat", time.Millisecond, 400*time.Millisecond).String()
 	}
 	sc.World = w
 	accept := c17Reference(ifs, routes, target, sc.Iface, sc.SrcIP, sc.SrcMAC, sc.Kind == "arp")
